@@ -11,17 +11,30 @@ META = {
     "engine": "tla-roundtrip",
     "technique": "TLC model checking of the naming rules and of the resource naming scheme (TLA+), TLC-emitted oracle "
                  "table compared in lock-step with the real constructors over all byte strings up to length 3, TLC "
-                 "trace validation of random edit sequences and of observations from two real iceoryx2 domains",
+                 "trace validation of every construction path with arguments around the capacity, of random edit "
+                 "sequences, of observations from two real iceoryx2 domains and of every path the domains create or "
+                 "remove (LD_PRELOAD shim log)",
     "text": "TLC checks Names.tla (validity predicates of FileName, Path, FilePath, ServiceName, NodeName, "
             "RestrictedFileName over byte classes; editing operations refuse invalid results) for the safety lemmas "
             "(an accepted file name has no separator / NUL / traversal component; root/prefix+name+suffix stays under "
             "the root) over all class strings up to length 4, and emits the oracle table class tuple -> accept; the "
             "driver enumerates ALL byte strings up to length 3 (16.8 M, both tiers) through every real constructor and compares verdict and as_bytes() round trip; random strings "
-            "up to the maximum length and edit sequences are validated by NamesTrace.tla. Domains.tla models path_for / "
+            "up to the maximum length and edit sequences are validated by NamesTrace.tla; so is every public construction "
+            "path (new, from_c_str, TryFrom/TryInto/FromStr, serde, conversions between the types, from_path_and_file, "
+            "new_normalized, the StaticString constructors incl. the truncating ones) with arguments of length 0..3, "
+            "CAPACITY-1 .. CAPACITY+1, 2*CAPACITY(+1) (NUL / invalid byte before, at and after the capacity) and the "
+            "accessors of the accepted value (as_c_str, serialisation, file_name, path, entries, normalize); from_c_str "
+            "is also part of the exhaustive enumeration (length <= 2, length 3 for the capacity-2 type). Domains.tla models path_for / "
             "extract_name / listing / cleanup for pairs of configurations and TLC checks RoundTrip and Isolation; two "
             "REAL domains (shared and separate roots, unrelated / extended prefixes) are driven through Node::list, "
             "Service::list, does_exist, open and dead-node cleanup and every observation is validated by "
-            "DomainsTrace.tla.",
+            "DomainsTrace.tla. `drv-names resources` runs two real domains (different / same root, different / same "
+            "prefix, configuration loaded from a file with custom directories and suffixes) under harness/sysshim with "
+            "IOX2_VERIF_ROOT=/: node, the four messaging patterns, the eight port kinds, a dynamic data segment, a "
+            "helper process that owns all of it and is killed, dead-node cleanup and orderly shutdown, one step at a "
+            "time; every path a step creates or removes ANYWHERE is a created / removed record judged by "
+            "CreatedUnderDomain / RemovedUnderDomain, and list / does_exist / remove of every cal concept are called "
+            "with the other domain's names (ConceptListIsolated, ConceptExists*, ConceptRemoveIsolated).",
     "note": "Bounded (strings up to length 4 in the model, length 3 exhaustively on the code, sampled above). Rules are "
             "the ones of the POSIX target (':' is only forbidden on Windows). ServiceName / NodeName take &str, byte "
             "strings that are not UTF-8 cannot be passed and are skipped for them. Error kinds are not compared. The "
@@ -33,6 +46,7 @@ META = {
 }
 
 SIG_PREFIX = "domains:prefix-extension-same-root:NodeListIsolated"
+SIG_FPAF = "names-trace:FilePath:Validated:from_path_and_file:panic-at-capacity"
 NODE_CLAUSES = ("NodeListIsolated", "NodeListComplete", "CleanupIsolated", "CleanupComplete")
 
 
@@ -79,9 +93,9 @@ def gen_cfg(ctx, name, base, lines):
 def names_model(ctx):
     res = vp.tlc("data", "MC_Names", cfg="MC_Names_quick.cfg" if ctx.quick else "MC_Names.cfg", workers=8,
                  timeout=900 if ctx.quick else 1800)
-    vp.record_tlc(ctx, "Names[all class strings up to length 4, all edit operations]", res)
+    vp.record_tlc(ctx, "Names[all class strings up to length 4, all edit operations, all entry points]", res)
     vp.tlc_require_ok(res, "MC_Names (safety lemmas and edit model of Names.tla)")
-    vp.check_action_coverage(res, ["Grow", "Edit"], "MC_Names")
+    vp.check_action_coverage(res, ["Grow", "Edit", "Ctor"], "MC_Names")
     oracle = None
     for p in res.prints:
         m = re.match(r'<<"ORACLE", "(.*)">>$', p)
@@ -101,7 +115,9 @@ def enumerate_strings(ctx, oracle_path, oracle):
     _, so, _ = vp.run_driver("drv-names", args, timeout=1500, env={"VERIF_SEED": ctx.seed})
     s = vp.last_json_line(so)
     ctx.coverage["enumeration"] = {k: s[k] for k in ("max_len", "sample", "strings", "evaluated", "skipped_not_utf8",
-                                                     "class_tuples_covered", "mismatches", "accepted")}
+                                                     "class_tuples_covered", "mismatches", "accepted", "from_c_str_calls")}
+    if s["from_c_str_calls"] < 2 * 16_000_000:
+        raise vp.ToolError(f"vacuous enumeration: only {s['from_c_str_calls']} from_c_str calls")
     ctx.coverage["exhaustive"] = s["max_len"] == 3
     ctx.evaluations += s["evaluated"]
     ctx.distinct += s["class_tuples_covered"]
@@ -114,57 +130,102 @@ def enumerate_strings(ctx, oracle_path, oracle):
     for m in s["first"][:4]:
         cl = [oracle["classes"][c - 1] for c in m["classes"]]
         ctx.report(vp.Violation(
-            f"{m['ty']}::new({bytes(m['bytes'])!r}) "
+            f"{m['ty']}::{m.get('via', 'new')}({bytes(m['bytes'])!r}) "
             + (f"accepts={m['real_accepts']} but the documented rules say accepts={m['oracle_accepts']} (byte classes {cl})"
                if m["kind"] == "verdict" else f"reads back {bytes(m['read_back'])!r}"),
             replay={"mismatch": m, "classes": cl, "total_mismatches": s["mismatches"],
                     "cmd": "harness/target/debug/drv-names enumerate --oracle work/C19-<tier>/oracle.json --len 2"},
-            signature=f"names:{m['ty']}:{m['kind']}:{'-'.join(cl)}"))
+            signature=f"names:{m['ty']}:{m.get('via', 'new')}:{m['kind']}:{'-'.join(cl)}"))
     ctx.sample({"oracle_accepts_FileName": oracle["accept"]["FileName"][:12], "classes": oracle["classes"]})
 
 
+VIAS_NEEDED = ["new", "from_c_str", "try_from_str", "serde_json", "try_into", "from_bytes", "try_from_bytes", "from_str",
+               "from_bytes_truncated", "from_str_truncated", "from_FileName", "from_ref_FileName", "from_FilePath",
+               "from_ref_FilePath", "from_RFileName2", "try_from_FileName"]
+
+
+def report_names(ctx, v, trace, known=False):
+    st = last_state(v.res)
+    recs = vp.read_ndjson(trace)
+    pos = (int(st.get("l", "1")) - 1) if v.invariant else v.pos
+    run, rel = vp.run_containing(recs, pos) if pos else (recs[:20], 0)
+    clause = v.invariant or "unexplained-event"
+    ty = run[0].get("ty") if run else "?"
+    rec = recs[pos - 1] if pos else {}
+    sig = f"names-trace:{ty}:{clause}:{rec.get('a', '?')}" + (f":{rec['via']}" if rec.get("a") == "new" else "")
+    if known and rec.get("a") == "from_path_and_file" and rec.get("r") == "panic" and clause == "Validated" \
+            and 254 <= len(rec["arg"]) + len(rec["arg2"]) <= 255:
+        sig = SIG_FPAF
+    short = {k: (bytes(x).decode("latin1") if isinstance(x, list) else x) for k, x in rec.items()}
+    m = re.search(r'expected \|->\s*\[\s*r \|-> "(\w+)"', st.get("nwhy", ""))
+    ctx.report(vp.Violation(
+        f"{ty}: recorded operation violates {clause}: {short}" + (f"; the documented rules demand r={m.group(1)}" if m else ""),
+        replay={"clause": clause, "run": run[:rel + 1], "state": st, "trace_module": "NamesTrace"}, signature=sig))
+
+
 def edits(ctx):
+    """random edit sequences (drv-names edits) and every construction path around the capacity (drv-names ctors),
+    validated by NamesTrace.tla in one TLC run"""
+    etrace = ctx.path("traces", "edits_only.ndjson")
+    ctrace = ctx.path("traces", "ctors.ndjson")
     trace = ctx.path("traces", "edits.ndjson")
-    _, so, _ = vp.run_driver("drv-names", ["edits", "--runs", 90 if ctx.quick else 900, "--ops", 25, "--out", trace],
+    _, so, _ = vp.run_driver("drv-names", ["edits", "--runs", 84 if ctx.quick else 910, "--ops", 25, "--out", etrace],
                              timeout=600, env={"VERIF_SEED": ctx.seed})
     s = vp.last_json_line(so)
+    _, so, _ = vp.run_driver("drv-names", ["ctors", "--out", ctrace] + ([] if ctx.quick else ["--more"]),
+                             timeout=600, env={"VERIF_SEED": ctx.seed})
+    c = vp.last_json_line(so)
     ctx.coverage["edits"] = s
+    ctx.coverage["ctors"] = c
     need = ["new:ok", "new:err", "push:ok", "push:err", "insert:ok", "insert:err", "remove:ok", "remove:err", "pop:ok",
             "pop:err", "truncate:ok", "truncate:err", "strip_prefix:true", "strip_prefix:err", "strip_suffix:true",
-            "strip_suffix:err"]
+            "strip_suffix:err", "remove_range:ok", "remove_range:err", "retain:ok", "retain:err"]
     missing = [a for a in need if not s["per_action"].get(a)]
     if missing:
         raise vp.ToolError(f"vacuous edit run: never observed {missing}")
-    ctx.evaluations += s["events"]
+    need = [f"via:{v}:ok" for v in VIAS_NEEDED] + [f"via:{v}:err" for v in VIAS_NEEDED if not v.startswith("from_F")
+                                                   and not v.startswith("from_ref") and v != "from_RFileName2"] \
+        + ["from_path_and_file:ok", "from_path_and_file:err", "new_normalized:ok", "new_normalized:err", "add_path_entry:ok",
+           "add_path_entry:err", "as_c_str:ok", "to_string:ok", "serialize:ok", "file_name:ok", "path:ok", "entries:ok",
+           "normalize:ok"]
+    missing = [a for a in need if not c["per_action"].get(a)]
+    if missing:
+        raise vp.ToolError(f"vacuous constructor run: never observed {missing}")
+    ctx.evaluations += s["events"] + c["events"]
+    erecs, crecs = vp.read_ndjson(etrace), vp.read_ndjson(ctrace)
+    vp.write_ndjson(trace, erecs + crecs)
     v = vp.tlc_trace("data", "NamesTrace", trace, timeout=1500, heap="6g")
-    vp.record_tlc(ctx, "NamesTrace[edits]", v.res, count=False)
+    vp.record_tlc(ctx, "NamesTrace[edits + every construction path]", v.res, count=False)
     if v.accepted:
-        ctx.traces_validated += s["runs"]
+        ctx.traces_validated += s["runs"] + c["runs"]
     else:
-        st = last_state(v.res)
-        recs = vp.read_ndjson(trace)
-        pos = (int(st.get("l", "1")) - 1) if v.invariant else v.pos
-        run, rel = vp.run_containing(recs, pos) if pos else (recs[:20], 0)
-        clause = v.invariant or "unexplained-event"
-        ty = run[0].get("ty") if run else "?"
-        ctx.report(vp.Violation(
-            f"{ty}: recorded operation violates {clause}: {recs[pos - 1] if pos else None}; model expects {st.get('nwhy')}",
-            replay={"clause": clause, "run": run[:rel + 1], "state": st, "trace_module": "NamesTrace"},
-            signature=f"names-trace:{ty}:{clause}:{recs[pos - 1].get('a') if pos else '?'}"))
-    recs = vp.read_ndjson(trace)
-    ctx.sample({"edit_events": [r for r in recs[:40] if r.get("k") == "op" and len(r["s"]) < 12][:6]})
+        report_names(ctx, v, trace)
+    # the runs of the class with the KNOWN finding (from_path_and_file at the capacity) once more without tolerance
+    cand = [r for r in vp.split_runs(crecs) if r[0].get("cls") == "fpaf-capacity"]
+    if not cand:
+        raise vp.ToolError("vacuous constructor run: no from_path_and_file at the capacity")
+    p = ctx.path("traces", "ctors_fpaf.ndjson")
+    vp.write_ndjson(p, [e for r in cand for e in r])
+    v2 = vp.tlc_trace("data", "NamesTrace", p, cfg="NamesTrace_strict.cfg", timeout=600)
+    vp.record_tlc(ctx, "NamesTrace[from_path_and_file at the capacity, no tolerance]", v2.res, count=False)
+    if v2.accepted:
+        ctx.traces_validated += len(cand)
+    else:
+        report_names(ctx, v2, p, known=True)
+    ctx.sample({"edit_events": [r for r in erecs[:40] if r.get("k") == "op" and len(r["s"]) < 12][:6]})
+    ctx.sample({"ctor_events": [r for r in crecs if r.get("via") == "from_c_str" and len(r["arg"]) < 6][:4]})
     return trace
 
 
 def domains_model(ctx):
     mf = 3 if ctx.quick else 5
     base = ["CONSTANTS", f" Configs <- {'QuickConfigs' if ctx.quick else 'MCConfigs'}", " NodeIds <- MCNodeIds", " Hashes <- MCHashes", " HashLen = 2",
-            f" MaxFiles = {mf}", "INVARIANTS RoundTrip Isolation", "CONSTRAINT Small", "CHECK_DEADLOCK FALSE"]
+            f" MaxFiles = {mf}", "INVARIANTS RoundTrip Isolation ShmIsolation", "CONSTRAINT Small", "CHECK_DEADLOCK FALSE"]
     d = gen_cfg(ctx, "MCD_safe", "MC_Domains", ["SPECIFICATION SpecSafe"] + base)
     res = vp.tlc(d, "MCD_safe", workers=8, timeout=1200 if ctx.quick else 2400, libs=["data"])
     vp.record_tlc(ctx, f"Domains[pairs without digit-extended prefix in one root, <= {mf} files]", res)
     vp.tlc_require_ok(res, "MC_Domains (safe configuration pairs)")
-    vp.check_action_coverage(res, ["CreateNode", "CreateService", "Kill", "CleanupDead"], "MC_Domains safe")
+    vp.check_action_coverage(res, ["CreateNode", "CreateService", "CreateShm", "Kill", "CleanupDead"], "MC_Domains safe")
     d = gen_cfg(ctx, "MCD_amb", "MC_Domains", ["SPECIFICATION SpecAmbiguous"] + base)
     res = vp.tlc(d, "MCD_amb", workers=4, timeout=600, libs=["data"])
     vp.record_tlc(ctx, "Domains[same root, prefix extended by digits]", res, count=False)
@@ -173,8 +234,78 @@ def domains_model(ctx):
     return res
 
 
+def run_tag(ctx, kind):
+    """prefix tag of the iceoryx2 objects of this run: unique per check process so that concurrent runs (other boxes,
+    other seeds) neither see nor clean up each other's shared memory objects"""
+    return f"c{kind}{'q' if ctx.quick else 't'}{ctx.seed % 100}{os.getpid() % 46656:x}"
+
+
+def shim_so(ctx):
+    """The shim compiled from the CURRENT source into the work directory (never races with another check that is
+    rebuilding harness/sysshim/sysshim.so)."""
+    import subprocess
+    src = os.path.join(vp.HARNESS, "sysshim", "sysshim.c")
+    out = ctx.path("shim", "sysshim.so")
+    r = subprocess.run(["gcc", "-O2", "-g", "-fPIC", "-D_GNU_SOURCE", "-shared", "-o", out, src, "-ldl", "-lpthread"],
+                       stdout=subprocess.PIPE, stderr=subprocess.STDOUT, text=True, timeout=600)
+    if r.returncode != 0:
+        raise vp.ToolError("cannot build the sysshim:\n" + r.stdout[-2000:])
+    return out
+
+
+RES_KINDS = ["created:dir", "created:file", "created:shm", "created:socket", "created:listener-socket", "removed:dir",
+             "removed:file", "removed:shm", "removed:listener-socket"]
+RES_ACTIONS = ["created", "removed", "port_step", "create_node", "create_service", "kill", "cleanup", "concept_list",
+               "concept_listed", "concept_exists", "concept_remove", "list_nodes", "list_services", "drop_node"]
+
+
+def resources_real(ctx):
+    """every kind of resource of two real domains under the LD_PRELOAD shim (IOX2_VERIF_ROOT=/ logs every path)"""
+    tag = run_tag(ctx, "r")
+    work = ctx.path("res", "x")[:-2]
+    trace = ctx.path("traces", "resources.ndjson")
+    syslog = ctx.path("traces", "resources.syslog")
+    if os.path.exists(syslog):
+        os.remove(syslog)
+    env = {"LD_PRELOAD": shim_so(ctx), "IOX2_VERIF_ROOT": "/", "IOX2_VERIF_SYSLOG": syslog, "IOX2_VERIF_TAG": "res",
+           "IOX2_VERIF_COUNT": "s", "VERIF_SEED": ctx.seed}
+    for k in list(os.environ):
+        if k.startswith("IOX2_VERIF_") and k not in env:
+            env[k] = ""
+    cleanup_shm(tag)
+    try:
+        _, so, _ = vp.run_driver("drv-names", ["resources", "--work", work, "--tag", tag, "--out", trace, "--syslog", syslog]
+                                 + ([] if ctx.quick else ["--more"]), timeout=1200, env=env)
+    finally:
+        cleanup_shm(tag)
+    s = vp.last_json_line(so)
+    ctx.coverage["resources"] = s
+    if not s.get("shim_records"):
+        raise vp.ToolError("the LD_PRELOAD shim logged nothing (resources scenario)")
+    missing = [k for k in RES_KINDS if k not in s["kinds"]] + [a for a in RES_ACTIONS if not s["per_action"].get(a)]
+    if missing:
+        raise vp.ToolError(f"vacuous resources run: never observed {missing}")
+    if s["per_action"].get("victim_failed"):
+        raise vp.ToolError("resources run: a helper process could not create its resources")
+    if s["per_action"]["port_step"] < 2 * 14 * s["pairs"]:
+        raise vp.ToolError(f"vacuous resources run: only {s['per_action']['port_step']} port steps")
+    recs = vp.read_ndjson(trace)
+    runs = vp.split_runs(recs)
+    ctx.evaluations += s["events"] + s["per_action"]["created_paths"] + s["per_action"]["removed_paths"]
+    ctx.distinct += len(runs)
+    v = vp.tlc_trace("data", "DomainsTrace", trace, timeout=1200, heap="6g")
+    vp.record_tlc(ctx, "DomainsTrace[every resource kind, created / removed paths from the shim]", v.res, count=False)
+    if v.accepted:
+        ctx.traces_validated += len(runs)
+    else:
+        report_domain(ctx, v, trace, None)
+    ctx.sample({"created": [{"d": r["d"], "step": r["step"], "paths": [bytes(p).decode("latin1") for p in r["paths"]][:3]}
+                            for r in recs if r.get("a") == "created" and r["step"] in ("listener", "grow")][:4]})
+    return trace
+
+
 def domains_real(ctx, model_amb):
-    tag = f"c19{'q' if ctx.quick else 't'}{ctx.seed % 1000}"
+    tag = run_tag(ctx, "d")
     work = ctx.path("dom", "x")[:-2]
     trace = ctx.path("traces", "domains.ndjson")
     cleanup_shm(tag)
@@ -250,10 +381,21 @@ def report_domain(ctx, v, path, known_sig):
     reset = run[0] if run else {}
     clause = v.invariant or "unexplained-event"
     rec = recs[pos - 1] if pos else None
+    if rec and rec.get("a") in ("created", "removed"):
+        # name the offending paths (re-evaluating the recorded observation only for the message)
+        root, prefix = reset.get(f"root{rec['d']}", ""), reset.get(f"prefix{rec['d']}", "")
+        paths = [(bytes(p).decode("latin1"), k) for p, k in zip(rec["paths"], rec["kinds"])]
+        odd = [f"{p} ({k})" for p, k in paths if not ((k == "shm" and p.startswith("/dev/shm/" + prefix))
+                                                      or (k != "shm" and os.path.normpath(p).startswith(os.path.normpath(root))))]
+        rec = {"a": rec["a"], "d": rec["d"], "step": rec["step"], "outside_root_or_prefix": odd[:6] or [p for p, _ in paths][:6]}
+    elif rec and rec.get("a", "").startswith("concept_"):
+        rec = {k: (bytes(x).decode("latin1") if isinstance(x, list) and x and isinstance(x[0], int) else x) for k, x in rec.items()}
     what = (f"domain pair {reset.get('pair')} (prefixes {reset.get('prefix0')!r} / {reset.get('prefix1')!r}, "
             f"same root: {reset.get('same_root')}): observation {rec} under domain {rec.get('d') if rec else '?'} "
             f"violates {clause}")
     sig = known_sig if known_sig else f"domains:{reset.get('pair')}:{clause}"
+    if len(st.get("owned", "")) > 4000:
+        st["owned"] = st["owned"][:4000] + " ..."
     ctx.report(vp.Violation(what, replay={"clause": clause, "record": rec, "run": run[:rel + 1], "state": st,
                                           "trace_module": "DomainsTrace",
                                           "cmd": "harness/target/debug/drv-names domains --work <dir> --tag <t> "
@@ -261,7 +403,58 @@ def report_domain(ctx, v, path, known_sig):
                             signature=sig))
 
 
-def selftest(ctx, edit_trace, dom_trace):
+def selftest(ctx, edit_trace, dom_trace, res_trace):
+    # (1) an over-long C string that is "accepted" truncated, (2) a listener socket in /tmp, (3) a foreign object listed
+    recs = vp.read_ndjson(edit_trace)
+    runs = vp.split_runs(recs)
+    done = 0
+    for run in runs:
+        idx = next((i for i, r in enumerate(run) if r.get("via") == "from_c_str" and r.get("r") not in ("ok",)
+                    and len(r["arg"]) == 256 and 0 not in r["arg"] and run[0]["ty"] == "FileName"
+                    and all(32 < b < 127 and chr(b) not in '/\\*<>"|?' for b in r["arg"])), None)
+        if idx is None:
+            continue
+        bad = [dict(r) for r in run[:idx + 1]]
+        bad[idx]["r"] = "ok"
+        bad[idx]["s"] = bad[idx]["arg"][:255]
+        p = ctx.path("selftest", "ctors_bad.ndjson")
+        vp.write_ndjson(p, bad)
+        v = vp.tlc_trace("data", "NamesTrace", p)
+        if v.accepted or v.invariant != "Validated":
+            raise vp.ToolError(f"selftest: a truncating from_c_str was not rejected ({v.invariant})")
+        done += 1
+        break
+    if not done:
+        raise vp.ToolError("selftest: no refused over-long from_c_str call of FileName in the trace")
+    rr = vp.read_ndjson(res_trace)
+    run = vp.split_runs(rr)[0]
+    idx = next((i for i, r in enumerate(run) if r.get("a") == "created" and "socket" in r["kinds"]), None)
+    if idx is None:
+        raise vp.ToolError("selftest: no created socket in the first resource scenario")
+    bad = [dict(r) for r in run[:idx + 1]]
+    k = bad[idx]["kinds"].index("socket")
+    name = bytes(bad[idx]["paths"][k]).decode().rsplit("/", 1)[1]
+    bad[idx]["paths"] = list(bad[idx]["paths"])
+    bad[idx]["paths"][k] = list(("/tmp/" + name).encode())
+    p = ctx.path("selftest", "resources_bad.ndjson")
+    vp.write_ndjson(p, bad)
+    v = vp.tlc_trace("data", "DomainsTrace", p)
+    if v.accepted or v.invariant != "CreatedUnderDomain":
+        raise vp.ToolError(f"selftest: a listener socket in /tmp was not rejected ({v.invariant})")
+    idx = next((i for i, r in enumerate(run) if r.get("a") == "concept_list" and r["names"] and r["d"] == 0), None)
+    other = next((r for r in run if r.get("a") == "concept_list" and r["names"] and r["d"] == 1
+                  and r["concept"] == run[idx]["concept"]), None) if idx is not None else None
+    if other is None:
+        raise vp.ToolError("selftest: no concept listing in the first resource scenario")
+    bad = [dict(r) for r in run[:idx + 1]]
+    bad[idx]["names"] = list(bad[idx]["names"]) + [other["names"][0]]
+    p = ctx.path("selftest", "resources_bad2.ndjson")
+    vp.write_ndjson(p, bad)
+    v = vp.tlc_trace("data", "DomainsTrace", p)
+    if v.accepted or v.invariant != "ConceptListIsolated":
+        raise vp.ToolError(f"selftest: a foreign object in a concept listing was not rejected ({v.invariant})")
+    ctx.note("selftest: truncating from_c_str rejected by Validated; listener socket in /tmp rejected by CreatedUnderDomain; "
+             "foreign object in a concept listing rejected by ConceptListIsolated")
     recs = vp.read_ndjson(edit_trace)[:300]
     idx = next((i for i, r in enumerate(recs) if r.get("a") == "new" and r.get("r") == "ok" and r["arg"]), None)
     if idx is None:
@@ -293,7 +486,8 @@ def run(ctx):
     ctx.assumptions += [
         "POSIX rule set (':' allowed); byte strings that are not UTF-8 cannot reach the &str based ServiceName / NodeName",
         "isolation is judged from the API observations of two domains driven from one process plus one killed helper "
-        "process per domain; the file system paths touched are not traced",
+        "process per domain, and from the paths the libc calls of these processes create / remove (LD_PRELOAD shim: "
+        "open O_CREAT, shm_open O_CREAT, mkdir, bind, rename, unlink, remove, rmdir, shm_unlink)",
         "node ids are u128 decimal strings, service files are named by fixed-length hashes (as in the pinned commit)",
     ]
     oracle_path, oracle = names_model(ctx)
@@ -301,11 +495,12 @@ def run(ctx):
     edit_trace = edits(ctx)
     model_amb = domains_model(ctx)
     dom_trace = domains_real(ctx, model_amb)
+    res_trace = resources_real(ctx)
     if not ctx.quick:
-        selftest(ctx, edit_trace, ctx.path("traces", "domains_safe.ndjson"))
-    ctx.coverage["rule"] = ("evaluations = constructor calls compared with the TLC oracle + recorded edit events + recorded "
-                            "domain observations; distinct = byte-class tuples (length <= 3) covered by the enumeration + "
-                            "domain configuration pairs; states/transitions = TLC on MC_Names and MC_Domains (safe pairs)")
+        selftest(ctx, edit_trace, ctx.path("traces", "domains_safe.ndjson"), res_trace)
+    ctx.coverage["rule"] = ("evaluations = constructor calls compared with the TLC oracle + recorded edit / constructor "
+                            "events + recorded domain observations + created / removed paths judged; distinct = byte-class tuples (length <= 3) covered by the enumeration + "
+                            "domain configuration pairs (observation scenarios + resource scenarios); states/transitions = TLC on MC_Names and MC_Domains (safe pairs)")
 
 
 def replay(ctx, path):
